@@ -4,6 +4,8 @@
   go/cmd/c07 compares with the real code at every crash point (point-name sequence and recovered state).
 -/
 import GocoinV.Proofs.C07Hist
+import GocoinV.Proofs.C07JHist
+import GocoinV.Proofs.C07Pos
 namespace GocoinV.Props.C07
 open GocoinV.Persist GocoinV.Proofs.C07
 
@@ -32,7 +34,67 @@ theorem witness_failure_window :
       (consistentAt [] witnessOps k = false ↔ (witnessLo ≤ k ∧ k < witnessHi)) := by decide +kernel
   exact h k (by omega)
 
-/-! ## crash consistency: what is proved for ALL histories and ALL crash points
+/-- on the witness the failure window is EXACTLY the set of crash points after which the restart reads an undo file that
+    names another block than the one it undoes (ghost flag `St.foreign`): the exclusion hypothesis of
+    `recovered_set_is_replay` below is the precise one. -/
+theorem witness_fails_iff_foreign_undo_read :
+    ∀ k, k ≤ (run [] witnessOps).es.length →
+      (consistentAt [] witnessOps k = false ↔ foreignAt [] witnessOps k = true) := by
+  intro k hk
+  have h : ∀ k, k < (run [] witnessOps).es.length + 1 →
+      (consistentAt [] witnessOps k = false ↔ foreignAt [] witnessOps k = true) := by decide +kernel
+  exact h k (by omega)
+
+/-! ## the recovered unspent set is the replay of the tip's chain — ALL histories, ALL crash points
+
+`WF bs` (Proofs/C07Chain.lean, every field decidable): block ids are non-zero and identify the block, height = parent's
+height + 1, created coins are fresh w.r.t. the replay of the parent's chain, every block is valid on the replay of its
+parent's chain (an invalid block on a side branch leads to DeleteBranch, which the model does not contain).
+`St.foreign` is a ghost flag of the model (never read by it): it is raised when UndoBlockTxs reads an `undo/<height>` file
+whose first 32 bytes name another block than the one being undone — the code skips these bytes (known finding
+undo-file-keyed-by-height).  "foreign = false" is therefore literally "every undo file that was read belonged to the block it
+was applied to".  The proof is an invariant (`Proofs.C07.J`: provenance of every data block / index record / undo file /
+snapshot on disk at EVERY effect prefix + the in-memory chain) over all operations, FindFirstFather and FindPathTo included. -/
+
+/-- `crash_consistent`, conjuncts "tip the node had validated" and "unspent set = replay of that tip's chain", for EVERY history
+    over {submit (extend / side branch / reorganise), idle, close, restart, skip, pause, hurry} of well-formed blocks and EVERY
+    crash point k: right after NewChainExt on the directory left by the first k effects (s1) — unconditionally —, after the client's
+    recovery loop (s2) and after feeding every block of the workload again (s3) — as long as no undo file of another block was
+    read up to there —, the tip is genesis or a submitted block and the unspent set equals (as a set) `replay` of the tip's chain. -/
+theorem recovered_set_is_replay (bigs : List Coin) (ops : List Op) (k : Nat) (hwf : WF (submitted ops))
+    (hrun : (run bigs ops).foreign = false) (s1 s2 s3 : St) (hc : crashAt bigs ops k = .ok (s1, s2, s3)) :
+    ((s1.n.tip = 0 ∨ ∃ b ∈ submitted ops, b.id = s1.n.tip) ∧ sameSet s1.n.utxo (replay (submitted ops) s1.n.tip) = true) ∧
+    (s2.foreign = false →
+      (s2.n.tip = 0 ∨ ∃ b ∈ submitted ops, b.id = s2.n.tip) ∧ sameSet s2.n.utxo (replay (submitted ops) s2.n.tip) = true) ∧
+    (s3.foreign = false →
+      (s3.n.tip = 0 ∨ ∃ b ∈ submitted ops, b.id = s3.n.tip) ∧ sameSet s3.n.utxo (replay (submitted ops) s3.n.tip) = true) := by
+  obtain ⟨h1, h2, h3⟩ := crash_J hwf bigs ops k (fun _ h => h) hrun hc
+  exact ⟨h1.result hwf, fun hf => (h2 hf).result hwf, fun hf => (h3 hf).result hwf⟩
+
+example : WF (submitted wlReorgNoSave) ∧ (run [] wlReorgNoSave).foreign = false ∧
+    (match crashAt [] wlReorgNoSave 40 with | .ok (_, s2, s3) => !s2.foreign && !s3.foreign | .error _ => false) = true := by
+  refine ⟨⟨by decide +kernel, by decide +kernel, by decide +kernel, by decide +kernel, by decide +kernel⟩, by decide +kernel, by decide +kernel⟩
+
+/-- the same for the RUNNING node at every operation boundary of every history (restarts inside the history included): the tip
+    is genesis or a submitted block and the unspent set is the replay of its chain, as long as no undo file of another block
+    has been read. -/
+theorem running_set_is_replay (bigs : List Coin) (ops : List Op) (hwf : WF (submitted ops))
+    (hrun : (run bigs ops).foreign = false) (j : Nat) :
+    ((run bigs (ops.take j)).n.tip = 0 ∨ ∃ b ∈ submitted ops, b.id = (run bigs (ops.take j)).n.tip) ∧
+    sameSet (run bigs (ops.take j)).n.utxo (replay (submitted ops) (run bigs (ops.take j)).n.tip) = true :=
+  (run_prefix_J hwf bigs ops (fun _ h => h) hrun j).result hwf
+
+example : WF (submitted witnessOps) ∧ (run [] witnessOps).foreign = false := by
+  refine ⟨⟨by decide +kernel, by decide +kernel, by decide +kernel, by decide +kernel, by decide +kernel⟩, by decide +kernel⟩
+
+/-- every snapshot file, index record, data block and undo file on disk after ANY effect prefix of ANY such history comes from
+    the block universe; every snapshot (UTXO.db, UTXO.old, *.db.tmp) holds the replay of its block's chain with the right height -/
+theorem every_crash_prefix_provenance (bigs : List Coin) (ops : List Op) (k : Nat) (hwf : WF (submitted ops))
+    (hrun : (run bigs ops).foreign = false) :
+    Prov (submitted ops) (applyAll {} ((run bigs ops).es.take k)) :=
+  applyAll_prov _ _ (Prov.empty _) (fun e he => (run_J hwf bigs ops (fun _ h => h) hrun).jd.effs e (List.mem_of_mem_take he))
+
+/-! ## crash consistency: what else is proved for ALL histories and ALL crash points
 
 The on-disk invariant (`Proofs.C07.DiskInv`, Proofs/C07Disk.lean): at every prefix of the effect list
   * UTXO.db, UTXO.old and every <hash>.db.tmp hold a snapshot whose (tip, coins) pair the running node held at an
@@ -47,17 +109,24 @@ CommitBlockTxs, UndoBlockTxs, BlockTrusted, ParseTillBlock, MoveToBlock (reorgan
 AcceptBlock, writeOne/writeAll, Idle, Close, NewChainExt, the client's recovery loop, a restart in the middle of the
 history (Proofs/C07Ops.lean, C07Run.lean, C07Hist.lean).
 
--- OPEN: crash_consistent_partial, full strength:
---   ∀ bigs ops, (∀ prefix, ¬ reorgAfterLastCompletedSnapshot prefix) → ∀ k ≤ (run bigs ops).es.length,
+-- OPEN: crash_consistent, full strength:
+--   ∀ bigs ops, WF (submitted ops) → (no undo file of another block is read) → ∀ k ≤ (run bigs ops).es.length,
 --     consistentAt bigs ops k = true
--- Proved of it for ALL histories (`crash_reopen_partial`, also inside the known-finding window and with restarts inside
--- the history): the NewChainExt stage of `crashAt` never panics and comes up at a past state of the node with the
--- tip's ancestry indexed and all indexed data present.  NOT proved in general (only on the five concrete shapes
--- below, by kernel evaluation): (1) that a past in-memory set equals `replay` of its tip's chain (the in-memory
--- correctness of commit/undo — it is FALSE after a restart inside the known-finding window and needs well-formed
--- blocks: unique ids, fresh created coins); (2) that the client's recovery loop and feeding the remaining blocks
--- reach the tip and set of the uninterrupted run (needs FindFirstFather/FindPathTo correctness and a unique best
--- leaf; the undo files "belonging to their block" part of the invariant is exactly what F8 breaks). -/
+-- `consistentAt` has four conjuncts.  PROVED for ALL histories and ALL crash points: the restart does not panic in NewChainExt
+-- (`crash_reopen_partial`, unconditionally, also inside the known-finding window); the recovered tip is genesis or a submitted
+-- block and the recovered set is the replay of its chain (`recovered_set_is_replay`, under WF and the exact exclusion
+-- "no foreign undo file read"; on the witness that exclusion is exactly the failure window: `witness_fails_iff_foreign_undo_read`).
+-- NOT proved in general (only on the five concrete shapes below, by kernel evaluation, every crash point each):
+--  (a) that the recovery loop itself does not stop with a panic ("unknown path to block" / "No data for block" / missing undo
+--      file): needs the undo files of the active branch above the snapshot to EXIST (an invariant like C06's UndoOK) and
+--      FindPathTo completeness;
+--  (b) s3.tip = (uninterrupted run).tip — the convergence conjunct: needs "MoveToBlock reaches its destination" (proved here as part
+--      of `moveToBlock_spec`: err = none → tip = dst), "the recovery loop ends at the farthest leaf", "feeding every block leaves the
+--      tip at the unique highest block" (uniqueness of the best leaf as a hypothesis) — a maximal-height invariant threaded
+--      through every operation and through the restart, not done.  Given (b), the set conjunct for s3 follows from
+--      `recovered_set_is_replay` + `running_set_is_replay` (both sets are the replay of the same tip's chain).
+--  Note: without "parent submitted before child" the convergence conjunct is FALSE of the model's `crashAt`, which feeds ALL blocks
+--  again (an orphan refused in the uninterrupted run is accepted after the restart when its parent is then on disk). -/
 
 /-- `crash_consistent`, the part that holds for EVERY history over {submit (extend / side branch / reorganise), idle,
     close, restart, skip, pause, hurry} and EVERY crash point k (also k beyond the end = no crash, also inside the
@@ -69,8 +138,9 @@ history (Proofs/C07Ops.lean, C07Run.lean, C07Hist.lean).
     the whole ancestry of every indexed block, and the data needed to move to any leaf, are there). -/
 theorem crash_reopen_partial (bigs : List Coin) (ops : List Op) (k : Nat) :
     ∃ s1, openNode (applyAll {} ((run bigs ops).es.take k)) bigs 0 = .ok s1 ∧
-      ((s1.n.tip = 0 ∧ s1.n.utxo = []) ∨
-        ∃ j, j ≤ ops.length ∧ (run bigs (ops.take j)).n.tip = s1.n.tip ∧ (run bigs (ops.take j)).n.utxo = s1.n.utxo) ∧
+      ((s1.n.tip = 0 ∧ s1.n.utxo = [] ∧ s1.n.lastHeight = 0) ∨
+        ∃ j, j ≤ ops.length ∧ (run bigs (ops.take j)).n.tip = s1.n.tip ∧ (run bigs (ops.take j)).n.utxo = s1.n.utxo ∧
+          (run bigs (ops.take j)).n.lastHeight = s1.n.lastHeight) ∧
       inTree s1.n s1.n.tip = true ∧
       (∀ r ∈ s1.d.idx, (∃ b ∈ s1.d.dat, b.id = r.id) ∧ r.invalid = false ∧ (r.parent = 0 ∨ ∃ r' ∈ s1.d.idx, r'.id = r.parent)) ∧
       (∀ b ∈ s1.d.dat, b.parent = 0 ∨ ∃ r ∈ s1.d.idx, r.id = b.parent) :=
@@ -83,7 +153,7 @@ theorem every_crash_prefix_good (bigs : List Coin) (ops : List Op) (k : Nat) :
   exact h.pref k
 
 /-- a good directory is one NewChainExt opens without a panic, at the snapshot it holds -/
-theorem good_directory_opens (P : BlockId → List Coin → Prop) (d : Disk) (hd : DiskInv P d) (bigs : List Coin) :
+theorem good_directory_opens (P : Snap → Prop) (d : Disk) (hd : DiskInv P d) (bigs : List Coin) :
     ∃ s1, openNode d bigs 0 = .ok s1 ∧ s1.err = none ∧ inTree s1.n s1.n.tip = true ∧
       ((loadSnap d = none ∧ s1.n.tip = 0 ∧ s1.n.utxo = []) ∨ (∃ sn, loadSnap d = some sn ∧ s1.n.tip = sn.tip ∧ s1.n.utxo = sn.coins)) := by
   obtain ⟨s1, ho, _, he, hc, hin, _⟩ := openNode_inv hd bigs 0
@@ -92,7 +162,7 @@ theorem good_directory_opens (P : BlockId → List Coin → Prop) (d : Disk) (hd
   · exact Or.inl ⟨a, b, c⟩
   · exact Or.inr ⟨sn, a, b, c⟩
 
-example : ∃ d : Disk, DiskInv (fun _ _ => True) d := ⟨{}, DiskInv.empty _⟩
+example : ∃ d : Disk, DiskInv (fun _ => True) d := ⟨{}, DiskInv.empty _⟩
 
 /-- extend the tip (three blocks, flushed one by one, no snapshot until Close): every crash point recovers -/
 theorem crash_consistent_partial_extend :
@@ -131,10 +201,14 @@ theorem clean_restart_identity_partial :
     cleanRestartOK [] wlExtend = true ∧ cleanRestartOK [2, 3] wlSave = true ∧ cleanRestartOK [2, 3] wlAbort = true ∧
     cleanRestartOK [] wlReorgNoSave = true ∧ cleanRestartOK [] witnessOps = true := by
   decide +kernel
--- OPEN: clean_restart_identity : ∀ bigs ops, (run bigs (ops ++ [.close])).err = none → cleanRestartOK bigs (ops ++ [.close]) = true
--- Proved of it for ALL histories: the NewChainExt stage (`clean_restart_reopen_identity_partial`). Missing: that the
--- client's recovery loop is then a no-op, i.e. that the running node's tip is a highest node of the tree on disk
--- (needs MoveToBlock/FindPathTo correctness for arbitrary trees).
+-- OPEN: clean_restart_identity : ∀ bigs ops, WF (submitted ops) → (run bigs (ops ++ [.close])).err = none →
+--         cleanRestartOK bigs (ops ++ [.close]) = true
+-- (without height well-formedness it is false of the model: a block may carry any height field).
+-- Proved of it for ALL histories: the NewChainExt stage (`clean_restart_reopen_identity_partial`: exactly the node's tip, set
+-- (same list) and height), and that the set is the replay of the tip's chain (`running_set_is_replay`).  Missing: that the
+-- client's recovery loop is then a no-op, i.e. no index record on disk is higher than the tip at shutdown — the same
+-- maximal-height invariant as (b) above ("every index record / queued block is a tree node; with err = none every tree node is
+-- at most as high as the tip"; MoveToBlock reaching its destination is proved, the threading through all operations is not).
 
 /-- clean shutdown, every history: after Close (no panic before) NewChainExt on the directory yields EXACTLY the
     running node's tip, unspent set (the same list) and height. -/
@@ -192,5 +266,31 @@ theorem undo_own_commit (u : List Coin) (b : Block)
   undo_own_commit' u b hv hfresh
 
 example : validOn [1, 2] ⟨1, 0, 1, [1], [3]⟩ = true ∧ ∀ c ∈ [3], c ∉ [1, 2] := by decide +kernel
+
+/-! ## file positions inside blockchain.dat (Model/PersistPos.lean)
+
+Model/Persist.lean treats the data file as an append-only list of blocks looked up by id.  The code addresses it by byte
+position: LoadBlockIndex computes maxdatfilepos from the index and SEEKS the freshly opened data file there, writeOne writes
+at the handle's offset and records fpos := maxdatfilepos.  The positional model makes the orphaned data tail (kill between the
+data write and the index write) and the two-crash scenario explicit. -/
+
+/-- with the Seek as written: after ANY history of completed writes, kills between the data write and the index write (each
+    followed by a restart) and plain restarts, every index record reads back exactly its own block — the id-keyed data file of
+    Model/Persist.lean is a sound abstraction (block lengths are positive). -/
+theorem dat_positions_sound (ops : List POp) (hl : ∀ op ∈ ops, lenPos op) : readsBack (prun false {} ops).d = true :=
+  readsBack_of (prun_inv ops {} pinit_inv hl).disk
+
+example : ∀ op ∈ [POp.write 1 300, .crashMid 2 250, .write 2 250, .restart, .write 3 200], lenPos op := by
+  intro op h
+  simp only [List.mem_cons, List.mem_nil_iff, or_false] at h
+  rcases h with h | h | h | h | h <;> subst h <;> simp [lenPos]
+
+/-- … and it is the Seek that does it: if the data file handle ignored its offset (O_APPEND), the two-crash history "write;
+    killed after the data write of the next block; restart; write it again; write another" leaves an index record that points
+    into the orphaned tail. -/
+theorem dat_positions_need_the_seek :
+    readsBack (prun true {} [.write 1 300, .crashMid 2 250, .write 2 250, .write 3 200]).d = false ∧
+    readsBack (prun false {} [.write 1 300, .crashMid 2 250, .write 2 250, .write 3 200]).d = true := by
+  decide
 
 end GocoinV.Props.C07
